@@ -239,7 +239,8 @@ func (env *exprEnv) tr(x *Expr) typedTerm {
 			return typedTerm{t: tm, typ: bt.Elem()}
 		case *types.Map:
 			s := g.sortOf(base.typ)
-			return typedTerm{t: fmt.Sprintf("(select (val_%s %s) %s)", s, base.t, idx.t), typ: bt.Elem()}
+			// Go semantics: a missing key reads as the zero value
+			return typedTerm{t: fmt.Sprintf("(ite (select (has_%s %s) %s) (select (val_%s %s) %s) %s)", s, base.t, idx.t, s, base.t, idx.t, g.zero(bt.Elem())), typ: bt.Elem()}
 		case *types.Array:
 			return typedTerm{t: fmt.Sprintf("(select %s %s)", base.t, idx.t), typ: bt.Elem()}
 		}
